@@ -5,7 +5,10 @@ package builder
 // valid operator sequence for the Builder's PDF version, judged by a fresh
 // content.State.  Sequences are random walks over 16 Builder calls (including calls in
 // the wrong state and graphics state nesting deeper than 28), run on a fresh Builder,
-// on a Builder after Reset and through Build.
+// on a Builder after Reset and through Build, and produced in several segments (Harvest
+// between the calls and before Close, the segments re-read as consecutive content
+// streams).  All sequences of up to 4 (thorough: 6) primitive calls, Harvest being one of
+// them, are enumerated exhaustively.
 
 import (
 	"bytes"
@@ -21,15 +24,25 @@ import (
 	"seehuhn.de/go/pdf/graphics/content"
 )
 
-func c15Reread(ops *content.Operators, v pdf.Version) error {
-	rc, err := ops.RawBytes()
-	if err != nil {
-		return fmt.Errorf("RawBytes: %w", err)
-	}
-	data, err := io.ReadAll(rc)
-	rc.Close()
-	if err != nil {
-		return fmt.Errorf("RawBytes read: %w", err)
+// c15CrossTextMC counts the accepted sequences with overlapping BT/BMC (see c15Reread).
+var c15CrossTextMC int
+
+// c15Reread re-reads the segments as the consecutive content streams of one page.
+func c15Reread(v pdf.Version, segs ...*content.Operators) error {
+	var data []byte
+	ops := &content.Operators{}
+	for _, seg := range segs {
+		rc, err := seg.RawBytes()
+		if err != nil {
+			return fmt.Errorf("RawBytes: %w", err)
+		}
+		d, err := io.ReadAll(rc)
+		rc.Close()
+		if err != nil {
+			return fmt.Errorf("RawBytes read: %w", err)
+		}
+		data = append(data, d...)
+		ops.Ops = append(ops.Ops, seg.Ops...)
 	}
 	stm := content.NewScanner(func() (io.ReadCloser, error) { return io.NopCloser(bytes.NewReader(data)), nil })
 	it := stm.NewIter()
@@ -60,6 +73,7 @@ func c15Reread(ops *content.Operators, v pdf.Version) error {
 	// sequences and compatibility sections nest properly among themselves and are all closed
 	// (ISO 32000-2, 14.6.1: marked content shall be properly nested with text objects)
 	depthQ := 0
+	pathOpen := false // a path was begun and not yet ended by a painting operator (8.5.3)
 	var stack []string
 	closers := map[string]string{"ET": "BT", "EMC": "BMC", "EX": "BX"}
 	for i, op := range got {
@@ -78,14 +92,35 @@ func c15Reread(ops *content.Operators, v pdf.Version) error {
 		case "BT", "BMC", "BX":
 			stack = append(stack, name)
 		case "ET", "EMC", "EX":
-			if len(stack) == 0 || stack[len(stack)-1] != closers[name] {
+			want := closers[name]
+			if len(stack) > 0 && stack[len(stack)-1] == want {
+				stack = stack[:len(stack)-1]
+				break
+			}
+			// Recorded finding (known-findings.txt, kind text-mc-overlap): the Builder and content.State accept a text object
+			// and a marked-content sequence that overlap without one containing the other
+			// (BT BMC ET EMC and BMC BT EMC ET, every version), which ISO 32000-2 14.6.1
+			// forbids; State.popNesting removes the innermost frame of the wanted kind
+			// wherever it is.  Exactly this case (the opener exists, and only BT/BMC
+			// frames lie above it) is counted and reported once under its own failure kind;
+			// everything else about the sequence is still checked.
+			j := len(stack) - 1
+			for j >= 0 && stack[j] != want && want != "BX" && stack[j] != "BX" {
+				j--
+			}
+			if j < 0 || stack[j] != want {
 				return fmt.Errorf("operator %d (%s) closes %v: paired operators are not properly nested", i, op.Name, stack)
 			}
-			stack = stack[:len(stack)-1]
+			c15CrossTextMC++
+			stack = append(stack[:j:j], stack[j+1:]...)
+		case "m", "re":
+			pathOpen = true
+		case "S", "s", "f", "F", "f*", "B", "B*", "b", "b*", "n":
+			pathOpen = false
 		}
 	}
-	if len(stack) != 0 || depthQ != 0 {
-		return fmt.Errorf("re-read stream leaves %v and %d q open", stack, depthQ)
+	if len(stack) != 0 || depthQ != 0 || pathOpen {
+		return fmt.Errorf("re-read stream leaves %v, %d q and path=%v open", stack, depthQ, pathOpen)
 	}
 	return nil
 }
@@ -195,10 +230,55 @@ func TestB2C15Builder(t *testing.T) {
 				}
 			}
 		}
-		for mode := 0; mode < 3; mode++ {
+		// segmented production: Harvest between the calls and before Close
+		playSegs := func(b *Builder) []*content.Operators {
+			var segs []*content.Operators
+			harvest := func() bool {
+				o, err := b.Harvest()
+				if err != nil {
+					return false
+				}
+				if len(b.Stream) != 0 {
+					t.Errorf("B2-FAIL builder-harvest run=%d calls=%v: accumulator not cleared", run, seq)
+				}
+				segs = append(segs, o)
+				return true
+			}
+			for _, k := range seq {
+				calls[k](b)
+				if rng.Intn(3) == 0 && !harvest() {
+					return nil
+				}
+			}
+			for i := 0; i < 4; i++ {
+				if b.Err != nil {
+					return nil
+				}
+				if rng.Intn(2) == 0 && !harvest() {
+					return nil
+				}
+				if b.Close() == nil {
+					if !harvest() {
+						return nil
+					}
+					return segs
+				}
+				switch i {
+				case 0:
+					b.TextEnd()
+				case 1:
+					b.Stroke()
+				case 2:
+					b.PopGraphicsState()
+				}
+			}
+			return nil
+		}
+		for mode := 0; mode < 4; mode++ {
 			cases++
 			desc := fmt.Sprintf("run=%d version=%s mode=%d calls=%v", run, v, mode, seq)
 			var ops *content.Operators
+			var segs []*content.Operators
 			func() {
 				defer func() {
 					if r := recover(); r != nil {
@@ -241,13 +321,18 @@ func TestB2C15Builder(t *testing.T) {
 						return
 					}
 					ops = o
+				case 3:
+					segs = playSegs(b)
 				}
 			}()
-			if ops == nil {
+			if ops != nil {
+				segs = []*content.Operators{ops}
+			}
+			if segs == nil {
 				continue // rejected by the Builder
 			}
 			accepted++
-			if err := c15Reread(ops, v); err != nil {
+			if err := c15Reread(v, segs...); err != nil {
 				t.Errorf("B2-FAIL builder-reread %s: %v", desc, err)
 			}
 		}
@@ -255,6 +340,80 @@ func TestB2C15Builder(t *testing.T) {
 	if accepted*5 < cases {
 		t.Errorf("B2-FAIL harness: only %d of %d sequences were accepted by the Builder", accepted, cases)
 	}
-	t.Logf("accepted %d", accepted)
+
+	// small scope, exhaustive: every sequence of up to maxLen primitive calls, Harvest being
+	// one of them, followed by Close and a last Harvest.  Whatever is accepted must re-read
+	// as a balanced sequence when the harvested segments are put one after the other.
+	prim := []struct {
+		name string
+		f    func(b *Builder, segs *[]*content.Operators)
+	}{
+		{"q", func(b *Builder, _ *[]*content.Operators) { b.PushGraphicsState() }},
+		{"Q", func(b *Builder, _ *[]*content.Operators) { b.PopGraphicsState() }},
+		{"BT", func(b *Builder, _ *[]*content.Operators) { b.TextBegin() }},
+		{"ET", func(b *Builder, _ *[]*content.Operators) { b.TextEnd() }},
+		{"BMC", func(b *Builder, _ *[]*content.Operators) {
+			b.MarkedContentStart(&graphics.MarkedContent{Tag: "Span"})
+		}},
+		{"EMC", func(b *Builder, _ *[]*content.Operators) { b.MarkedContentEnd() }},
+		{"re", func(b *Builder, _ *[]*content.Operators) { b.Rectangle(1, 2, 3, 4) }},
+		{"S", func(b *Builder, _ *[]*content.Operators) { b.Stroke() }},
+		{"w", func(b *Builder, _ *[]*content.Operators) { b.SetLineWidth(2) }},
+		{"Harvest", func(b *Builder, segs *[]*content.Operators) {
+			if o, err := b.Harvest(); err == nil {
+				*segs = append(*segs, o)
+			}
+		}},
+	}
+	maxLen := 4
+	if thorough {
+		maxLen = 6
+	}
+	smallAccepted := 0
+	for length := 1; length <= maxLen; length++ {
+		idx := make([]int, length)
+		for {
+			for _, v := range []pdf.Version{pdf.V1_4, pdf.V1_7, pdf.V2_0} {
+				cases++
+				var segs []*content.Operators
+				b := New(content.Page, nil, v)
+				var names []string
+				for _, k := range idx {
+					prim[k].f(b, &segs)
+					names = append(names, prim[k].name)
+				}
+				if b.Err != nil || b.Close() != nil {
+					continue
+				}
+				if o, err := b.Harvest(); err == nil {
+					segs = append(segs, o)
+					smallAccepted++
+					if err := c15Reread(v, segs...); err != nil {
+						t.Errorf("B2-FAIL builder-segments version=%s calls=%v Close: %v", v, names, err)
+					}
+				}
+			}
+			k := length - 1
+			for k >= 0 {
+				idx[k]++
+				if idx[k] < len(prim) {
+					break
+				}
+				idx[k] = 0
+				k--
+			}
+			if k < 0 {
+				break
+			}
+		}
+	}
+	if smallAccepted == 0 {
+		t.Errorf("B2-FAIL harness: no enumerated sequence was accepted")
+	}
+	if c15CrossTextMC > 0 {
+		// recorded finding (known-findings.txt, kind text-mc-overlap)
+		t.Errorf("B2-FAIL text-mc-overlap %d accepted call sequences produce a text object and a marked-content sequence that overlap without one containing the other (e.g. BT BMC ET EMC), which ISO 32000-2 14.6.1 forbids", c15CrossTextMC)
+	}
+	t.Logf("accepted %d random, %d enumerated", accepted, smallAccepted)
 	t.Logf("B2-CASES %d", cases)
 }
